@@ -6,7 +6,7 @@
    violation) changes NOTHING -- chain state, store rows, write buffer, pool; over any sequence of deliveries each block
    is relayed at most once. *)
 From Coq Require Import NArith List.
-From SkV Require Import NodeModel NodeProofs.
+From SkV Require Import NodeModel NodeProofs ReplyLabelProofs.
 From SkV Require Bytes Codec ChainState Pow Validate VerdictLink.
 Import ListNotations.
 
@@ -54,9 +54,39 @@ Theorem C09_verdicts_are_full_validation : forall sha scrypt blake verify P s b 
   <-> exists s', Validate.add_block sha scrypt blake verify P s b now = Validate.Ok s'.
 Proof. exact VerdictLink.verdicts_full_validation. Qed.
 
+(* Scope of the statement ("outside bulk download"), made explicit: the proviso is decided by the header field
+   in_response_to, which the SENDER writes.  With the label set, in-state validation has no say off the skip heights,
+   for every state and block; the closed witnesses show a rule-breaking block becoming the served head of an idle node
+   and reaching the store with the next validated block, while the same block without the label leaves no trace.
+   (Observation K of DESIGN 11.10 -- outside the statement as read here, therefore not a KNOWN-FINDING.) *)
+Theorem C09_scope_reply_label_bypasses_in_state_validation : forall skip tx_valid_at s b v,
+  has_block (ns_blocks s) (ab_id b) = false -> has_block (ns_blocks s) (ab_prev b) = true ->
+  bv_itself v = true -> bv_apply v = true -> (ab_height b mod skip =? 0)%N = false ->
+  has_block (ns_blocks (fst (handle_block skip tx_valid_at s b v false))) (ab_id b) = true.
+Proof. exact reply_label_bypasses_in_state_validation. Qed.
+
+Theorem C09_scope_reply_labelled_invalid_block_enters :
+  let '(s', o) := handle_block k_skip k_valid k_s0 k_bad k_bad_verdict false in
+  bv_instate k_bad_verdict = false /\ has_block (ns_blocks s') (ab_id k_bad) = true /\ ns_head s' = ab_id k_bad /\ o = [].
+Proof. exact reply_labelled_invalid_block_enters. Qed.
+
+Theorem C09_scope_same_block_unlabelled_is_refused :
+  handle_block k_skip k_valid k_s0 k_bad k_bad_verdict true = (k_s0, []).
+Proof. exact same_block_unlabelled_is_refused. Qed.
+
+Theorem C09_scope_reply_labelled_invalid_block_reaches_the_store :
+  let '(s', _) := run k_skip k_valid k_conflict k_s0
+                      [EBlock k_bad k_bad_verdict false; EBlock k_good k_good_verdict true] in
+  In (ab_id k_bad) (ns_rows s') /\ has_block (ns_valid_blocks s') (ab_id k_bad) = true.
+Proof. exact reply_labelled_invalid_block_reaches_the_store. Qed.
+
 Print Assumptions C09_verdicts_are_full_validation.
 Print Assumptions C09_only_valid_enter.
 Print Assumptions C09_accepted_stored_and_relayed_once.
 Print Assumptions C09_duplicate_noop.
 Print Assumptions C09_rejected_leaves_no_trace.
 Print Assumptions C09_relay_at_most_once.
+Print Assumptions C09_scope_reply_label_bypasses_in_state_validation.
+Print Assumptions C09_scope_reply_labelled_invalid_block_enters.
+Print Assumptions C09_scope_same_block_unlabelled_is_refused.
+Print Assumptions C09_scope_reply_labelled_invalid_block_reaches_the_store.
